@@ -399,6 +399,16 @@ def rebracing(rep, R, ix):
             raise Inconclusive("sympy_to_blackbird: re-bracing idiom not recognised")
     rets = [n for n in walk_shallow(fn) if isinstance(n, ast.Return)]
     rep.check(all("str(%s)" % f.params[0] in u(r) or "pattern" in u(r) or "sub(" in u(r) for r in rets), R, ix.site(f), "the result is derived from str(expr)", key="from str")
+    # every free symbol is braced: the name list is all of expr.free_symbols (no filter, no intersection with another collection)
+    ex = f.params[0]
+    srcs = [n for n in ast.walk(fn) if isinstance(n, (ast.ListComp, ast.GeneratorExp, ast.SetComp)) and any("free_symbols" in u(g.iter) for g in n.generators)]
+    filt = [n for n in srcs if any(g.ifs for g in n.generators)]
+    setops = [n for n in ast.walk(fn) if isinstance(n, ast.BinOp) and isinstance(n.op, (ast.BitAnd, ast.Sub)) and "free_symbols" in u(n)] + \
+             [n for n in ast.walk(fn) if isinstance(n, ast.Call) and isinstance(n.func, ast.Attribute) and n.func.attr in ("intersection", "difference") and "free_symbols" in u(n)]
+    bad = filt + setops
+    rep.check(not bad, R, ix.site(f, bad[0]) if bad else ix.site(f), "all free symbols of the expression are braced (the name list is not filtered)",
+              "`%s`: symbols outside the filter are written without braces and re-load as undefined names" % (" ".join(u(bad[0]).split())[:70] if bad else ""), key="unfiltered")
+    rep.check(len(f.params) == 1, R, ix.site(f), "sympy_to_blackbird depends on the expression only", "parameters %s" % f.params, key="arity")
 
 
 # ------------------------------------------------------------------------------------------------------------ structure of the script
@@ -435,11 +445,12 @@ def structure(rep, R, ix, M):
     # statement lines
     lines = [n for n in walk_shallow(fn) if isinstance(n, ast.Call) and isinstance(n.func, ast.Attribute) and n.func.attr == "append" and u(n.func.value) == "script" and "|" in u(n)]
     txt = sorted(str(norm.canon_text(n.args[0])) for n in lines)
-    rep.check(txt == ["{op['op']} | {modes}", "{op['op']}{arguments} | {modes}"], R, ix.site(f), "statement lines are '<op>[(<arguments>)] | <modes>'", "got %s" % txt, key="stmt|line")
+    one_piece = "({', '.join(args + kwargs)})"
+    inline = txt == ["{op['op']} | {modes}", "{op['op']}%s | {modes}" % one_piece]       # the argument text written in place (or a once-bound local looked through)
+    rep.check(inline or txt == ["{op['op']} | {modes}", "{op['op']}{arguments} | {modes}"], R, ix.site(f), "statement lines are '<op>[(<arguments>)] | <modes>'", "got %s" % txt, key="stmt|line")
     args = sorted(str(norm.canon_text(n.value)) for n in walk_shallow(fn) if isinstance(n, ast.Assign) and u(n.targets[0]) == "arguments")
-    rep.check(args in (["({', '.join(args)), {', '.join(kwargs)})".replace("))", ")"), "({', '.join(args)})", "({', '.join(kwargs)})"],
-                       ["({', '.join(args + kwargs)})"], ["({', '.join(args)}, {', '.join(kwargs)})", "({', '.join(args)})", "({', '.join(kwargs)})"],
-                       sorted(["({', '.join(args)}, {', '.join(kwargs)})", "({', '.join(args)})", "({', '.join(kwargs)})"])), R, ix.site(f),
+    three = sorted(["({', '.join(args)}, {', '.join(kwargs)})", "({', '.join(args)})", "({', '.join(kwargs)})"])
+    rep.check(args in ([one_piece], three) or (inline and args == []), R, ix.site(f),
               "arguments are '(<positional>, <keyword>)' with positional arguments first", "got %s" % args, key="stmt|arguments")
     modes = sorted(str(norm.canon_text(n.value)) if norm.canon_text(n.value) is not None else " ".join(u(n.value).split()) for n in walk_shallow(fn) if isinstance(n, ast.Assign) and u(n.targets[0]) == "modes")
     okmodes = modes in (["[{', '.join(('{}'.format(m) for m in op['modes']))}]", "op['modes'][0]"], ["[{', '.join((str(m) for m in op['modes']))}]", "op['modes'][0]"],
@@ -541,11 +552,21 @@ def arrays(rep, R, ix, M, L):
                     "under `%s` the array is written some other way (`%s`)" % (which, " ".join(u(body[0]).split())[:60] if body else ""), key="hoist|extra arm|" + slot.name)
         body, which = select_arm(arms_, slot.var, "NdArray")
         txt = [" ".join(u(x).split()) for x in body]
-        want_body = ["var_name = 'A{}'.format(var_count)",
-                     ("args.append(var_name)" if slot.name.startswith("positional") else "kwargs.append('{}={}'.format(%s, var_name))" % slot.key),
-                     "var_count += 1", "bb_array = numpy_to_blackbird(%s, var_name)" % slot.var,
-                     "for idx, line in enumerate(bb_array): script.insert(array_insert + idx, line)", "array_insert += len(bb_array)"]
-        if txt == want_body:
+        loc = norm.local_names(sn)
+        ref = ("var_name = 'A{}'.format(var_count)\n" +
+               ("args.append(var_name)\n" if slot.name.startswith("positional") else "kwargs.append('{}={}'.format(%s, var_name))\n" % slot.key) +
+               "var_count += 1\nbb_array = numpy_to_blackbird(%s, var_name)\n" % slot.var +
+               "for idx, line in enumerate(bb_array):\n    script.insert(array_insert + idx, line)\narray_insert += len(bb_array)\n")
+        ref_loc = {"var_name", "var_count", "bb_array", "idx", "line", "script", "array_insert", "args", "kwargs", slot.var} | ({slot.key} if slot.key else set())
+        # canonical form: f-strings and .format spelled alike, local names alpha-renamed
+        def canon_block(stmts, locs):
+            out = []
+            for x in norm.alpha(stmts, locs):
+                out.append(x)
+            return out
+        got_c = canon_block(body, loc)
+        want_c = norm.alpha_of_source(ref, ref_loc)
+        if txt and (got_c == want_c or fstring_equal(body, ast.parse(ref).body, loc, ref_loc)):
             rep.ok(R, ix.site(s, chain_), "%s: every array value gets its own declaration A<n>, inserted line by line at the insertion point, which then advances by the number of lines" % slot.name)
         else:
             alltxt = " ".join(txt)
@@ -681,3 +702,29 @@ def local_aliases(stmts, roles):
             if isinstance(n, ast.Assign) and len(n.targets) == 1 and isinstance(n.targets[0], ast.Name) and n.targets[0].id not in roles:
                 out[n.targets[0].id] = ("alias", n.value)
     return out
+
+
+def fstring_equal(a_stmts, b_stmts, a_loc, b_loc):
+    """statement lists equal after alpha-renaming locals and rewriting every string-building expression into canonical template text"""
+    class F(ast.NodeTransformer):
+        def generic_visit(self, node):
+            node = super().generic_visit(node)
+            if isinstance(node, (ast.JoinedStr, ast.Call, ast.BinOp)):
+                t = norm.canon_text(node)
+                if t is not None and ("{" in t or isinstance(node, ast.JoinedStr)):
+                    return ast.copy_location(ast.Constant(value="TEMPLATE:" + t), node)
+            return node
+    import copy as _c
+    a = [F().visit(_c.deepcopy(x)) for x in a_stmts]
+    b = [F().visit(_c.deepcopy(x)) for x in b_stmts]
+    # canonical template text contains local names too: rename inside by applying alpha on a parsed form is not possible, so compare with names erased
+    import re as _re
+
+    def erase(txts, locs):
+        out = []
+        for t in txts:
+            for i, nm in enumerate(sorted(locs, key=len, reverse=True)):
+                t = _re.sub(r"\b%s\b" % _re.escape(nm), "L", t)
+            out.append(t)
+        return out
+    return erase([" ".join(u(x).split()) for x in a], a_loc) == erase([" ".join(u(x).split()) for x in b], b_loc)
